@@ -61,6 +61,11 @@ def run(ctx):
     g4(ctx, R)
     g5(ctx, R)
     g6(ctx, R)
+    # "has required every extension it uses": the three gates, registry ownership and its per-parse reset (rules of C07 / C13)
+    from .c07 import gates
+    from .c13 import h3
+    gates(ctx, R)
+    h3(ctx, R)
 
 
 # =============================================================================== lexer
